@@ -585,7 +585,8 @@ def install_oracle(rec, house, store=None, nvars=0):
             try:
                 return orig(self)
             finally:
-                rec.oracle.append(["segue", rec.tick, self.name, "end"])
+                rec.oracle.append(["segue", rec.tick, self.name, "end",
+                                   [[f.name for f in self.actives], float(self.elapsed).hex(), int(self.recurred)]])
         return segue
 
     def mk_frame_enter(orig):
@@ -713,7 +714,8 @@ def run_impl(prog, crash_at, workdir, name="prog", limit_s=20, maxticks=60):
             x = sh.value if sh is not None else 0
             vals.append(int(x) if x is not None else 0)
         status = [taskers[fm["name"]].status for fm in prog["framers"]]
-        return {"trace": rec.trace, "vars": vals, "status": status, "excn": excn, "oracle": rec.oracle}
+        return {"trace": rec.trace, "vars": vals, "status": status, "excn": excn, "oracle": rec.oracle,
+                "ticks": calls[0], "maxticks": maxticks}
     except Hang:
         return {"error": "Hang", "msg": "no termination within %ss" % limit_s, "phase": "run",
                 "trace": rec.trace[-20:]}
@@ -751,6 +753,8 @@ class Gen(object):
         others = [x["name"] for x in prog["framers"] if x["name"] != fm["name"]]
         if others and self.f("status"):
             opts += ["status", "done"]
+        if self.f("aux") and fm.get("frames"):
+            opts += ["doneaux"]
         k = r.choice(opts)
         if k == "var":
             n = ["var", r.randrange(prog["nvars"]), r.choice(list(CMPS)), r.randint(0, 4)]
@@ -759,6 +763,9 @@ class Gen(object):
                  r.choice([1, 2, 3, 4]) * prog["tick"] if r.random() < 0.7 else r.choice([0.1, 0.3, 0.25, 0.5])]
         elif k == "recurred":
             n = ["recurred", r.choice([">=", ">=", ">", "=="]), r.randint(0, 4)]
+        elif k == "doneaux":
+            # any / all over the plain auxiliaries of a frame of this framer (frames without any included)
+            n = ["doneaux", r.choice(["any", "all"]), r.choice(fm["frames"])["name"]]
         elif k == "status":
             n = ["status", r.choice(others), r.choice(list(STATS))]
         else:
@@ -817,6 +824,8 @@ class Gen(object):
                 frs.append({"name": "f%d" % j, "over": over, "under": None, "beacts": [], "enacts": [],
                             "renacts": [], "preacts": [], "reacts": [], "exacts": [], "rexacts": [],
                             "auxes": []})
+            if self.f("fwd") and r.random() < 0.3:
+                r.shuffle(frs)          # forward references: a frame may be declared before its over frame
             fm["frames"] = frs
             fm["first"] = r.choice(frs)["name"]
             prog["framers"].append(fm)
@@ -1177,4 +1186,16 @@ def scenarios(tick=0.125):
             _fr("x", preacts=[["go", [["recurred", ">=", 1]], "y", "repeat"]]),
             _fr("y", enacts=[["rec", 916]], preacts=[["go", [["elapsed", ">=", tick]], "z", "timeout"]]),
             _fr("z", enacts=[["rec", 917], ["done", ["me"]]])]}]})))
+    # S16: forward references -- frames declared BEFORE their over frames; the main frame of a conditional
+    # auxiliary sits at depth 2: while the auxiliary runs, the frames ABOVE the main frame keep recurring and
+    # their transitions are still evaluated (they leave, exiting main frame and auxiliary)
+    out.append(("condaux-under-forward-declared-over", _tagged({"tick": tick, "nvars": 1, "framers": [
+        {"name": "m0", "sched": "active", "order": "mid", "period": 0.0, "first": "low", "frames": [
+            _fr("low", "mid"),
+            _fr("mid", "top", preacts=[["aux", [["var", 0, ">=", 0]], "a1"]]),
+            _fr("top", preacts=[["go", [["recurred", ">=", 4]], "fin"]]),
+            _fr("fin", enacts=[["rec", 918], ["bid", "stop", ["all"], None]])]},
+        {"name": "a1", "sched": "aux", "order": "mid", "period": 0.0, "first": "x", "frames": [
+            _fr("x", preacts=[["go", [["recurred", ">=", 9]], "y"]]),
+            _fr("y", enacts=[["done", ["me"]]])]}]})))
     return out
